@@ -437,6 +437,12 @@ def _special_point(ca):
         return None
     # e must be affine in exactly one free symbol: e = p*s + q with constants p != 0, q
     syms = [k for k in e.atoms(deep=False) if TABLE.atoms[k].kind == 'sym' and TABLE.atoms[k].name != 'pi']
+    if len(syms) == 1 and target == 0 and e.den.is_const() and len(e.num.t) == 1:
+        # a single term c * pi^k * s: zero exactly where s is
+        mono_ = list(e.num.t.keys())[0]
+        if not mono_[1] and all((TABLE.atoms[k_].kind == 'sym' and TABLE.atoms[k_].name == 'pi') or (k_ == syms[0] and x_ == 1) for k_, x_ in mono_[0]) \
+                and any(k_ == syms[0] for k_, x_ in mono_[0]):
+            return syms[0], Fraction(0), at_special
     if len(syms) != 1 or not e.den.is_const() or len(e.atoms(deep=False)) != 1:
         return None
     sid = syms[0]
@@ -605,6 +611,54 @@ def decide_equal(a, b, budget=None, _why=None):
                             return 'different'
                         if all(v_ == 'equal' for v_ in verdicts_):
                             return 'equal'
+                        return 'unknown'
+                    if ca_ is not None and ca_.kind == 'fn' and ca_.name in ('and', 'or') and _DECIDE_DEPTH[0] < 12 and all(isinstance(x_, Rat) for x_ in ca_.args):
+                        # a conjunction of "input is not at its special value" tests (rx and ry and rz) / a disjunction of "is at" tests:
+                        # the generic arm must agree everywhere, the other arm at EACH special value
+                        parts_ = []
+                        flat_ = []
+
+                        def _flat(r_):
+                            if len(r_.num.t) == 1 and r_.den.is_const():
+                                (m3_, c3_), = r_.num.t.items()
+                                if len(m3_[0]) == 1 and not m3_[1] and m3_[0][0][1] == 1:
+                                    a3_ = TABLE.atoms[m3_[0][0][0]]
+                                    if a3_.kind == 'fn' and a3_.name == ca_.name and all(isinstance(y_, Rat) for y_ in a3_.args):
+                                        for y_ in a3_.args:
+                                            _flat(y_)
+                                        return
+                            flat_.append(r_)
+                        for x_ in ca_.args:
+                            _flat(x_)
+                        for x_ in flat_:
+                            xa_ = None
+                            if len(x_.num.t) == 1 and x_.den.is_const():
+                                (mm2_, cc2_), = x_.num.t.items()
+                                if len(mm2_[0]) == 1 and not mm2_[1] and mm2_[0][0][1] == 1:
+                                    xa_ = TABLE.atoms[mm2_[0][0][0]]
+                            pp_ = _special_point(xa_) if xa_ is not None else None
+                            parts_.append(pp_)
+                        want_at = (ca_.name == 'or')        # or: each disjunct true AT its special value; and: each conjunct true AWAY from it
+                        if all(pp_ is not None and pp_[2] == want_at for pp_ in parts_):
+                            generic_arm = at_.args[2] if ca_.name == 'or' else at_.args[1]
+                            special_arm = at_.args[1] if ca_.name == 'or' else at_.args[2]
+                            rg_ = decide_equal(subst(a, {k: generic_arm}), subst(b, {k: generic_arm}), budget)
+                            if rg_ == 'different':
+                                return 'different'
+                            if rg_ == 'equal':
+                                res_ = []
+                                for sid_, val_, _t in parts_:
+                                    try:
+                                        pa_ = subst(subst(a, {k: special_arm}), {sid_: C(val_)})
+                                        pb_ = subst(subst(b, {k: special_arm}), {sid_: C(val_)})
+                                    except ZeroDivisionError:
+                                        res_.append('unknown')
+                                        continue
+                                    res_.append(decide_equal(pa_, pb_, budget))
+                                if 'different' in res_:
+                                    return 'different'
+                                if all(r_ == 'equal' for r_ in res_):
+                                    return 'equal'
                         return 'unknown'
                     sp_ = _special_point(ca_) if ca_ is not None else None
                     if sp_ is not None and _DECIDE_DEPTH[0] < 12:
@@ -1310,6 +1364,11 @@ def exp(r):
         done = False
         if len(a) == 1 and a[0][1] == 1:
             at = TABLE.atoms[a[0][0]]
+            if at.kind == 'sym' and at.name == 'pi' and not c.re and (2 * c.im).denominator == 1:
+                # e^{i pi k/2}: a quarter turn to the power k
+                k = int(2 * c.im) % 4
+                result = result * Rat.const((GQ(1), GQ(0, 1), GQ(-1), GQ(0, -1))[k])
+                done = True
             if at.kind == 'fn':
                 u = at.args[0] if at.args and isinstance(at.args[0], Rat) else None
                 if at.name == 'atan' and not c.re and abs(c.im) == 1:
